@@ -37,6 +37,18 @@ CLAIMED = {
           "Seeded search over interleavings of 1-3 updater threads (register+update through the thread-local dispatch path, equal keys built differently, describe with/without unit) and 1-2 snapshotting threads; oracle over the history: every histogram value in exactly one snapshot, counter/gauge values inside the snapshot's window, registered-before metrics listed, described-only and other-recorder metrics never listed, first-registration order, unit/description per (kind,name) with sticky unit.",
           "Sequentially consistent interleavings only; one describing thread per recorder so that the describe order is the real-time order.",
           "DESIGN.md 4/C19"),
+  "C07": ("deterministic simulation (dsim): seeded schedules over recorder threads racing render()/run_upkeep()/describe on a real PrometheusRecorder; output parsed by an independent strict text-format parser",
+          "Seeded search over interleavings of 1-3 recording threads (counter increment/absolute, gauge set, histogram record; equal keys built differently), 1-2 rendering threads and upkeep calls, under seeded builder configurations (global labels overlapping key labels, global and per-metric buckets, quantiles, unit suffix); every render is parsed strictly and compared with the history: window bounds for counts/sums/buckets while concurrent, exact values at quiescence, monotone across non-overlapping renders, label merge with key precedence, first-description HELP, idempotent quiescent render.",
+          "Sequentially consistent interleavings only; one series per family and one describing thread per run; handle listings are sorted under the guard so the render thread's lock order is seed-deterministic (oracles compare sets, never order).",
+          "DESIGN.md 4/C07"),
+  "C12": ("deterministic simulation (dsim) on virtual time: seeded update / clock-advance / observe histories under a mock quanta clock, single simulated thread",
+          "The nondeterminism is the clock. Seeded histories (advances of exactly the timeout and +/- 1 ns, value-preserving updates, all masks, no timeout, the same key under two kinds) drive (i) the real Recency + Registry the way an exporter does and (ii) the real Prometheus recorder built around the mock clock and observed through render(); a per-(kind,key) state machine (generation, first-seen time) predicts keep/drop exactly, including full values when kept and restart from zero after a drop. The shared-entry defect for one key under two kinds was found and repaired.",
+          "Single-threaded histories (no schedule dimension); the exporter loop around should_store_* in scenario (i) is harness code written the way the exporters do it.",
+          "DESIGN.md 4/C12"),
+  "C15": ("deterministic simulation (dsim) on virtual time: seeded sample / clock-advance / render histories under a mock quanta clock, single simulated thread",
+          "Seeded histories (advances around bucket and window edges, samples equal to bounds, negatives, zero, infinities, NaN; seeded matcher sets, bucket counts and durations) drive the real Prometheus recorder and a direct Histogram; oracle: count at bound b = #samples <= b, cumulative, never decreasing over time, +Inf = total, single vs batched identical, histogram-vs-summary type and the applicable bounds by full > prefix > suffix > global precedence, summary quantiles inside the range of samples that can be inside the rolling window (0 when none can) and never influenced by samples older than the window, _sum/_count covering everything.",
+          "Half of this property is a pure function of its inputs and is checked as an invariant on the states the simulated histories reach, not claimed as a result of schedule search; summary-typed metrics get finite samples only; 0.2% tolerance for the sketch.",
+          "DESIGN.md 4/C15"),
 }
 
 NOT_APPLICABLE = {
